@@ -462,7 +462,11 @@ def snapshot (p : Params) (s : UState) : Snap :=
     skOn := s.skOn, skSize := s.sk.size, skSample := s.sk.sampleSize,
     skLen := s.sk.table.size, skCrc := s.sk.crc,
     freqs := sortBy (·.1) (s.map.map (fun kv => (kv.1, s.sk.frequency (p.hash kv.1)))),
-    now := s.now }
+    now := s.now,
+    -- one key object per key in use (the `Rc<K>` shared by the map key and both nodes), one
+    -- value object per map entry
+    liveK := countDistinct (AL.keys s.map ++ s.prob.map (·.key) ++ s.wo.map (·.key)),
+    liveV := s.map.length }
 
 def step (p : Params) (s : UState) (op : Op) : UState × Obs :=
   if s.fault.isSome then (s, .badOp)
